@@ -72,3 +72,18 @@ Definition gate (i : instr) := is_kind G1 i || is_kind G2 i.
 Definition shares (a b : instr) := negb (disjoint (qs a) (qs b)).
 Definition strip (c : list instr) : list instr := filter gate c.
 Definition mk (n : nat) (k : ikind) (q : list nat) := {| id := n; kind := k; qs := q |}.
+
+(* ---- gauge bookkeeping of the loop (C02): apply_window moves the orthogonality centre from site 0 to the start of the
+   window, i.e. it presupposes a right-canonical state (centre at 0); after every two-qubit gate the loop restores that form
+   (normalize(form="B") without noise, the lottery's final sweep with noise) ---- *)
+Inductive gstep := GOne | GTwo | GRestore.
+Definition gauge_word (ex : list instr) : list gstep :=
+  flat_map (fun i => if is_kind G2 i then [GTwo; GRestore] else [GOne]) ex.
+(* state: is the centre known to be at site 0?  output: was the precondition of each step met? *)
+Fixpoint gauge_run (at0 : bool) (w : list gstep) : list bool :=
+  match w with
+  | [] => []
+  | GOne :: r => true :: gauge_run at0 r           (* a one-site contraction needs no gauge and keeps the centre *)
+  | GTwo :: r => at0 :: gauge_run false r          (* needs the centre at 0; leaves it inside the window *)
+  | GRestore :: r => true :: gauge_run true r
+  end.
